@@ -10,6 +10,7 @@ combinations, compact/updatable forms, float/double encodings), with its branche
 Not decided: that the decoded state equals the encoded state (payload semantics); the HLL4 "updatable" aux table has
 the same token kinds as the compact pair list and is not distinguished by this rule.
 """
+import re
 from .. import ir, sym, formula, proto, specfmt
 from ..main import Result
 from . import common as C
@@ -288,6 +289,68 @@ def run(prog, ctx):
                 verdict = None
             res.tri(verdict, "C13.T", "C13.T|hll4-aux", "%s: %s" % (f4.id, wit), f4.id)
     res.rule("C13.T", n_t, 1, "aux area of Hll4 images: ints read vs the compact / updatable layout")
+    # ---------------- C13.Z a reader may refuse an image early when the bytes left cannot hold the announced number of elements,
+    # but the element size in that test must not exceed what one element actually occupies in the narrowest encoding the loop
+    # reads (t-digest values are 4 bytes in the float form): `count > remaining / K` with K larger than that rejects valid images
+    n_z = 0
+    SIZES = {"u8": 1, "i8": 1, "u16": 2, "i16": 2, "u32": 4, "i32": 4, "f32": 4, "u64": 8, "i64": 8, "f64": 8, "usize": 8}
+    from .common import Sym as _Sym
+    for g in prog.fns.values():
+        if g.promoted or "{closure" in g.id or not any(g.id.startswith(specfmt.FAMILIES[f_]["reader"][0].rsplit("::", 1)[0]) for f_ in specfmt.FAMILIES):
+            continue
+        if not any(proto.R_RE.match(st.get("callee") or "") for _b, st in g.calls()):
+            continue
+        sg = None
+        for bb in g.blocks:
+            if bb.cleanup:
+                continue
+            for st in bb.stmts:
+                if not (st[0] == "=" and st[2][0] == "bin" and st[2][1] in ("Gt", "Ge", "Lt", "Le")):
+                    continue
+                sg = sg or _Sym(prog, g)
+                try:
+                    e = sg.at(bb.idx, "t").rvalue(st[2])
+                except Exception:
+                    continue
+                cnt, lim = (e[2], e[3]) if e[1] in ("Gt", "Ge") else (e[3], e[2])
+                if not (lim[0] == "bin" and lim[1] == "Div" and any(y[0] == "call" and y[1].rsplit("::", 1)[-1] in ("position", "remaining") for y in sym.walk(lim[2]))):
+                    continue
+                kx = lim[3]
+                K = None
+                if kx[0] == "const" and isinstance(kx[1], int):
+                    K = kx[1]
+                elif kx[0] == "call" and "size_of" in kx[1]:
+                    tys_ = set((s_.get("gargs") or [None])[0] for _b, s_ in g.calls() if (s_.get("callee") or "").endswith("size_of"))
+                    K = SIZES.get(tys_.pop()) if len(tys_) == 1 else None
+                if K is None or cnt[0] == "const":
+                    continue
+                ck = show(cnt)
+                for h, body in sg.loops():
+                    nxt = [(b, s_) for b, s_ in g.calls() if b in body and (s_.get("callee") or "").endswith("::next")]
+                    if len(nxt) != 1:
+                        continue
+                    trip = sg.at(nxt[0][0], "t").operand(nxt[0][1]["args"][0])
+                    if ck not in show(trip):
+                        continue
+                    reads = [(b, re.sub(r"_(le|be)$", "", (s_.get("callee") or "").rsplit("::read_", 1)[-1])) for b, s_ in g.calls() if b in body and proto.R_RE.match(s_.get("callee") or "")]
+                    if not reads:
+                        continue
+                    bools = [g.local_name(i_) for i_ in range(1, g.argc + 1) if g.local_ty(i_) == "bool" and g.local_name(i_)]
+                    import itertools as _it
+                    best = None
+                    for vals in _it.product((0, 1), repeat=len(bools)):
+                        env = dict(zip(bools, vals))
+                        env["@prog"] = prog
+                        tot = 0
+                        for b, ty_ in reads:
+                            if C.path_pred(sg, b)(env) is not False:
+                                tot += SIZES.get(ty_, 8)
+                        best = tot if best is None else min(best, tot)
+                    n_z += 1
+                    res.tri(bool(best is None or K <= best), "C13.Z", "C13.Z|%s|%s" % (g.id, ck.split("@")[0]),
+                            "%s refuses an image when %s exceeds the bytes left divided by %d, but one element of that loop occupies only %s bytes in its narrowest "
+                            "encoding: a valid image is rejected as too short" % (g.id, ck, K, best), g.id, st[3] if len(st) > 3 else None)
+    res.rule("C13.Z", n_z, 0, "early length checks vs the element size actually read")
     # sibling reader calls pass their same-typed flags in the declared order (C11.A): a foreign image sets flag combinations this
     # library never writes, so crossed `compact` / `ooo` arguments only show on such images
     C.import_rules(res, prog, ctx, "C13.A", "C11", ("C11.A",), "crossed same-type arguments on the reader paths", 50)
